@@ -1649,7 +1649,9 @@ class EventType(VersionedOntologyElement, MutableMapping):
                                 name='id'
                             ),
                             e.data(
-                                e.param('4', name='minLength'),
+                                # Note that the length of base64Binary data
+                                # is measured in octets, not characters.
+                                e.param('1', name='minLength'),
                                 type='base64Binary'
                             ),
                             name=attachment_name
